@@ -331,7 +331,7 @@ impl RenetClient {
                     invariant
                         itA3.seq() == rs,
                         strictly_ascending(new_acks@),
-                        forall|j: int| 0 <= j < new_acks@.len() ==> s1.sent_packets@.contains_key(#[trigger] new_acks@[j]) && Self::in_some_range(rv, new_acks@[j]),
+                        forall|j: int| 0 <= j < new_acks@.len() ==> s1.sent_packets@.contains_key(#[trigger] new_acks@[j]) && Self::in_some_range(rv, new_acks@[j]),   // @C08 process_packet.only_sequences_inside_a_received_range_count_as_acknowledged
                         itA3.index() > 0 ==> forall|j: int| 0 <= j < new_acks@.len() ==> #[trigger] new_acks@[j] < rs[itA3.index() - 1].end,
                         itA3.index() == 0 ==> new_acks@.len() == 0,
                         forall|q: u64, i: int| s1.sent_packets@.contains_key(q) && 0 <= i < itA3.index() && (#[trigger] rs[i]).start <= q < rs[i].end
